@@ -213,6 +213,32 @@ def gen_extra(rng):
     return case
 
 
+def gen_sameobj(rng):
+    """A list in which one rectangle OBJECT occurs at two or three positions (a repeated rectangle in the strongest sense).
+    The description lists the values position by position; 'share' says which positions hold one object.  By value the
+    list is an ordinary list with repeated rectangles, so model, checker and oracle apply unchanged."""
+    base = gen_case(rng)
+    while len(base["rects"]) < 1 or base["kind"] in ("degenerate", "empty"):
+        base = gen_case(rng)
+    rects = [dict(d) for d in base["rects"]]
+    share = list(range(len(rects)))
+    for _ in range(rng.choice([1, 1, 2])):
+        j = rng.choice([0, 0, rng.randrange(len(rects))])          # often the would-be trunk (listed first)
+        pos = rng.randrange(len(rects) + 1)
+        rects.insert(pos, dict(rects[j]))
+        share = [k + 1 if k >= pos else k for k in share]
+        src = j + 1 if j >= pos else j
+        share.insert(pos, None)
+        share[pos] = share[src]
+    # positions holding one object all point at its first position
+    first = {}
+    canon = []
+    for k, o in enumerate(share):
+        first.setdefault(o, k)
+        canon.append(first[o])
+    return {"kind": "sameobj", "eps": base["eps"], "aeps": base["aeps"], "rects": rects, "share": canon}
+
+
 def mk_rect_c06(d, ints=False):
     if not ints:
         return fr.mk_rect(d)
@@ -230,6 +256,9 @@ def run_impl(case):
     Rectangle.set_epsilon(float(case["eps"]), float(case["aeps"]))
     try:
         rects = [mk_rect_c06(d, case.get("ints", False)) for d in case["rects"]]
+        if case.get("share"):
+            # the same OBJECT at several positions of the list: position k holds the object built for position share[k]
+            rects = [rects[j] for j in case["share"]]
         for r in rects:
             r.location = Rectangle.StogLocation.NO_POLYGON
         pre = [r.find_location(s).name for r in rects[:3] for s in rects[:3]]
@@ -636,7 +665,14 @@ def shrink(case):
     rs = case["rects"]
     for i in range(len(rs)):
         if len(rs) > 1:
-            yield dict(case, rects=rs[:i] + rs[i + 1:])
+            c = dict(case, rects=rs[:i] + rs[i + 1:])
+            if case.get("share"):
+                # drop position i; positions that shared its object now share the first remaining one of them
+                sh = case["share"]
+                rest = [k for k in range(len(sh)) if k != i]
+                first = {}
+                c["share"] = [first.setdefault(sh[k], n) for n, k in enumerate(rest)]
+            yield c
 
 
 def run(ctx, out, replay=None):
@@ -650,7 +686,7 @@ def run(ctx, out, replay=None):
                 "order; non-trivial = at least two rectangles; distinct by canonical hash.  Extra stream: equal areas (twins, rows of "
                 "equal rectangles, a branch with the trunk's area, a larger rectangle that is no trunk), long lists (9..100 branches, "
                 "trunk first / last / shuffled, intact or with one branch pulled away), integer coordinates passed as Python ints, "
-                "rectangles left of / straddling / ending exactly at the origin, lists reversed or sorted by area.  Object histories: a pool built from such "
+                "rectangles left of / straddling / ending exactly at the origin, lists reversed or sorted by area, lists holding one rectangle OBJECT at two or three positions.  Object histories: a pool built from such "
                 "a case, then 2-10 operations from templates (recognise, then replace one element - often the trunk - by a fresh "
                 "rectangle put in front; prepend / append a fresh one; move an element away in place and back; break first and "
                 "repair in place; a second group and lists mixing the groups; resize; arbitrary roles through the setter) or drawn at "
@@ -666,6 +702,8 @@ def run(ctx, out, replay=None):
     xrng = __import__("random").Random(f"C06-extra-{ctx.seed}")
     for _ in range(int((300 if ctx.quick() else 2000) * mult)):
         cases.append(gen_extra(xrng))
+    for _ in range(int((200 if ctx.quick() else 1500) * mult)):
+        cases.append(gen_sameobj(xrng))
     nh = int((1500 if ctx.quick() else 8000) * mult)
     hrng = __import__("random").Random(f"C06-hist-{ctx.seed}")
     for _ in range(nh):
